@@ -29,6 +29,12 @@ extern "C" void harness_z_accounting() {
   subj[0].push_back(P(0, 0)); subj[0].push_back(P(100, 10)); subj[0].push_back(P(20, 90));
   subj[1].push_back(P(10, 50)); subj[1].push_back(P(90, -5)); subj[1].push_back(P(80, 85));
   clip[0].push_back(P(200, 200)); clip[0].push_back(P(220, 200)); clip[0].push_back(P(210, 220));
+#elif GEOM == 3   // needle triangles on a small grid: rounding makes two subject edges join, and the joined pair is split again at a crossing (ClipperBase::Split)
+  subj[0].push_back(P(26, 3)); subj[0].push_back(P(1, 16)); subj[0].push_back(P(29, 4));
+  clip[0].push_back(P(16, 9)); clip[0].push_back(P(20, 21)); clip[0].push_back(P(14, 1));
+#elif GEOM == 4   // 5-gons on a small grid: a rounded crossing lands exactly on a neighbouring edge, which is joined there (CheckJoinLeft/Right)
+  subj[0].push_back(P(29, 37)); subj[0].push_back(P(17, 26)); subj[0].push_back(P(18, 46)); subj[0].push_back(P(23, 6)); subj[0].push_back(P(13, 42));
+  clip[0].push_back(P(43, 14)); clip[0].push_back(P(21, 38)); clip[0].push_back(P(15, 2)); clip[0].push_back(P(50, 36)); clip[0].push_back(P(4, 17));
 #elif GEOM == 0   // two triangles crossing in general position: 6 crossings... (intersection is a hexagon-like polygon)
   subj[0].push_back(P(0, 0)); subj[0].push_back(P(100, 10)); subj[0].push_back(P(20, 90));
   clip[0].push_back(P(10, 50)); clip[0].push_back(P(90, -5)); clip[0].push_back(P(80, 85));
@@ -43,7 +49,7 @@ extern "C" void harness_z_accounting() {
   if (with_cb) c.SetZCallback(zcb);
   c.AddSubject(subj); c.AddClip(clip);
   Paths64 sol;
-  bool ok = c.Execute(GEOM == 2 ? ClipType::Difference : ClipType::Intersection, FillRule::NonZero, sol);
+  bool ok = c.Execute((GEOM == 2 || GEOM == 3) ? ClipType::Difference : ClipType::Intersection, FillRule::NonZero, sol);
   VA(ok);
   VA(sol.size() == 1); ASSUME(sol.size() == 1);
   const Path64& s = sol[0];
@@ -55,7 +61,8 @@ extern "C" void harness_z_accounting() {
     for (int k = 0; k < 3; ++k) { if (k == 2 && subj.size() < 2) break; const Path64& in = k == 0 ? subj[0] : k == 1 ? clip[0] : subj[1]; for (size_t j = 0; j < in.size(); ++j) if (in[j].x == v.x && in[j].y == v.y) { is_input = true; if (in[j].z == v.z) z_from_input = true; } }
     bool from_cb = false;
     for (int k = 0; k < 16; ++k) { if (k >= g_ncb) break; if (g_cb[k].x == v.x && g_cb[k].y == v.y && g_cb[k].z == v.z) from_cb = true; }
-    if (is_input) VA(z_from_input || from_cb);
+    // (without a callback a crossing that rounds onto an input vertex location is still a new vertex: default Z)
+    if (is_input) VA(z_from_input || from_cb || (!with_cb && v.z == c.DefaultZ));
     else if (with_cb) VA(from_cb);
     else VA(v.z == c.DefaultZ);
   }
